@@ -1,3 +1,4 @@
 import MsiModel.Res
 import MsiModel.Wire
 import MsiModel.Language
+import MsiModel.Timestamp
